@@ -49,6 +49,34 @@ Proof.
   split; [lia | constructor; [cbn; lia | exact IHf]].
 Qed.
 
+(* Tiles determines the block list: the tiling the code computes is the only one the relation admits *)
+Lemma tiles_le b e l : Tiles b e l -> b <= e /\ (l <> [] -> b < e).
+Proof.
+  intros H. destruct (tiles_sum b e l H) as [S F]. split; [lia|].
+  intros Hn. destruct l as [|[b0 l0] r]; [congruence|]. cbn [fold_right snd] in S.
+  inversion F as [|? ? Hh _]; subst. cbn [snd] in Hh. lia.
+Qed.
+
+Theorem tiles_unique b e l1 : Tiles b e l1 -> forall l2, Tiles b e l2 -> l1 = l2.
+Proof.
+  induction 1 as [b|b l e r Hl Hle Hr IH Hfull]; intros l2 H2.
+  - inversion H2 as [|? l' ? r' Hl' Hle' Hr' Hfull']; subst; [reflexivity|].
+    exfalso. destruct (tiles_le _ _ _ Hr'). lia.
+  - inversion H2 as [|? l' ? r' Hl' Hle' Hr' Hfull']; subst.
+    + exfalso. destruct (tiles_le _ _ _ Hr). lia.
+    + assert (l = l').
+      { destruct (tiles_le _ _ _ Hr) as [A1 A2]. destruct (tiles_le _ _ _ Hr') as [B1 B2].
+        destruct r as [|x r]; destruct r' as [|x' r'].
+        - inversion Hr; inversion Hr'; subst; lia.
+        - inversion Hr; subst; try lia. specialize (Hfull' ltac:(discriminate)). specialize (B2 ltac:(discriminate)). lia.
+        - inversion Hr'; subst; try lia. specialize (Hfull ltac:(discriminate)). specialize (A2 ltac:(discriminate)). lia.
+        - rewrite Hfull, Hfull' by discriminate. reflexivity. }
+      subst l'. f_equal. apply IH. exact Hr'.
+Qed.
+
+Theorem left_blocks_is_the_tiling plen l : Tiles 0 plen l -> l = left_blocks plen.
+Proof. intros H. eapply tiles_unique; [exact H | apply left_blocks_tiles]. Qed.
+
 Section H.
   Variable sha1 : bytes -> bytes.
   Variable cf : hconf.
